@@ -40,6 +40,19 @@ Definition in_pow_dual (p q : nat) (v : list R) : Prop :=
   | [u; v; w] => 0 <= u /\ 0 <= v /\
                  (Rabs w) ^ q * (INR p ^ p * INR (q - p) ^ (q - p)) <= u ^ p * v ^ (q - p) * INR q ^ q
   | _ => False end.
+(** power cones with an arbitrary real exponent  al  in (0,1):  |z| <= x^al y^(1-al)  on x, y >= 0
+    ([rpow x a] is x^a for x > 0 and 0 at x <= 0), and the dual  |w| <= (u/al)^al (v/(1-al))^(1-al).
+    Used for the exponents that are not short dyadics (e.g. the binary64 value of 0.3). *)
+Definition rpow (x a : R) : R := if Rle_dec x 0 then 0 else Rpower x a.
+Definition in_pow_real (al : R) (v : list R) : Prop :=
+  match v with
+  | [x; y; z] => 0 < al < 1 /\ 0 <= x /\ 0 <= y /\ Rabs z <= rpow x al * rpow y (1 - al)
+  | _ => False end.
+Definition in_pow_real_dual (al : R) (v : list R) : Prop :=
+  match v with
+  | [u; v; w] => 0 < al < 1 /\ 0 <= u /\ 0 <= v /\
+                 Rabs w <= rpow (u / al) al * rpow (v / (1 - al)) (1 - al)
+  | _ => False end.
 Definition prodpowR (xs : list R) (ps : list nat) : R := prodpow OpsR xs ps.
 Definition in_genpow (ps : list nat) (q : nat) (v : list R) : Prop :=
   let xs := firstn (length ps) v in let w := skipn (length ps) v in
@@ -78,7 +91,7 @@ Definition in_cone (k : coneD) (v : list R) : Prop :=
   | KNN _ => in_nn v
   | KSOC _ => in_soc v
   | KExp => in_exp v
-  | KPow a => match alpha_pq a with Some (p, q) => in_pow p q v | None => False end
+  | KPow a => match alpha_pq a with Some (p, q) => in_pow p q v | None => in_pow_real (d2R a) v end
   | KGenPow al _ => match alphas_pq al with Some (ps, q) => in_genpow ps q v | None => False end
   | KPSD n => in_psd (N.to_nat n) v
   end.
@@ -89,7 +102,7 @@ Definition in_dual (k : coneD) (v : list R) : Prop :=
   | KNN _ => in_nn v
   | KSOC _ => in_soc v
   | KExp => in_exp_dual v
-  | KPow a => match alpha_pq a with Some (p, q) => in_pow_dual p q v | None => False end
+  | KPow a => match alpha_pq a with Some (p, q) => in_pow_dual p q v | None => in_pow_real_dual (d2R a) v end
   | KGenPow al _ => match alphas_pq al with Some (ps, q) => in_genpow_dual ps q v | None => False end
   | KPSD n => in_psd (N.to_nat n) v
   end.
